@@ -21,7 +21,9 @@ for l in open('/tmp/out_%s.txt'%P):
     if l.startswith('panic') or l.startswith('fatal'): print('CRASH after',last,l.strip())
     if l.startswith('RUN '):
         d=json.loads(l[4:]); runs+=1
-        if d.get('engine_err'): eng+=1; print(d['i'],d['engine_err'][:800])
+        if d.get('engine_err'):
+            eng+=1
+            if eng<3: print(d['i'],d['engine_err'][:600])
         for k,v in (d.get('nonvac') or {}).items(): nv[k]+=1
         for k,v in (d.get('probes') or {}).items(): pr[k]+=v
         for k,v in (d.get('faults') or {}).items(): fl[k]+=v
